@@ -100,7 +100,12 @@ func Program(t *rapid.T, related bool) (string, []string) {
 			e2, _ := expr("f" + strconv.Itoa(i))
 			sb.WriteString(v + ":" + T.String() + "\n" + v + " = (" + e + ")[" + e2 + "]\nprint " + v + "\n" + v + " = (" + e + ")[" + e2 + ":]\n")
 		case "range":
-			sb.WriteString(v + ":" + T.String() + "\nfor x" + v + " := range " + e + "\n    " + v + " = x" + v + "\nend\nprint " + v + "\n")
+			// the loop variable (whatever type the range gives it, if any) used in every expression form
+			x := "x" + v
+			use := rapid.SampledFrom([]string{v + " = " + x, "print " + x + " + 1", "print " + x + " == " + x, "print " + x + "[0]", "print " + x + "[1:]",
+				"print " + x + ".k", "print -" + x, "print !" + x, "print (len " + x + ")", "print " + x + ".(num)", "for y" + v + " := range " + x + "\n        print y" + v + "\n    end",
+				"print [" + x + "] {k:" + x + "}", x + " = " + x, "if " + x + "\n        print 1\n    end"}).Draw(t, "loopvaruse")
+			sb.WriteString(v + ":" + T.String() + "\nfor " + x + " := range " + e + "\n    " + use + "\nend\nprint " + v + "\n")
 		case "condition":
 			sb.WriteString("if " + e + "\n    print 1\nend\n")
 		case "assertion":
